@@ -1,12 +1,14 @@
 /-
 C18 — Lifecycle: closed means closed, whatever the call order.
 
-Proved on the models of xflate.Writer and xflate.Reader; the entry guards and
-sentinel comparisons of all eight API types are tied to the source by
-`Compress.Facts.guards_expected`; the other types' behaviour is decided by the
-exhaustive op-sequence sweep (family `life`).
+Proved on the models of xflate.Writer, xflate.Reader, bzip2.Writer and
+meta.Writer; the entry guards and sentinel comparisons of all eight API types
+are tied to the source by `Compress.Facts.guards_expected`; the other types'
+behaviour is decided by the exhaustive op-sequence sweep (family `life`).
 -/
 import Compress.Proofs.XFlateWriterLatch
+import Compress.Proofs.BzWApiLatch
+import Compress.Proofs.MetaWApi
 import Compress.XFlate.ReaderSpec
 import Compress.Facts.Sites
 
@@ -50,6 +52,36 @@ theorem C18_reader_closed (v : Variant) (L : Layout) (s : RState) (h : s.err = n
   · intro n adv fuel; simp [XFlate.read]
   · intro off wh; simp [seek]
   · simp [close]
+
+/-! ### bzip2.Writer and meta.Writer (API-level models; total functions: no op sequence can panic) -/
+
+section bzmeta
+open Compress.Bzip2 Compress.Meta
+
+/-- bzip2.Writer: Close returning nil makes the writer `done` with the closed marker latched ... -/
+theorem C18_bzip2_close_closes (s : BzW) (h : Compress.Proofs.BzWApi.Latched s) (hc : (s.close).2 = none) :
+    (s.close).1.done = true ∧ (s.close).1.err = some .closed :=
+  (Compress.Proofs.BzWApi.close_latches s h).1 hc
+
+/-- ... after which Write is refused with the closed error, Close returns nil again, and the whole
+    state - hence the sink - never changes, for every continuation without Reset. -/
+theorem C18_bzip2_closed (s : BzW) (hd : s.done = true) (he : s.err = some .closed) :
+    (∀ d, s.step (.write d) = (s, .write 0 (some .closed))) ∧ s.step .close = (s, .close none) ∧
+    (∀ ops : List BzOp, (∀ op ∈ ops, op.noReset) → (BzW.run s ops).1 = s) :=
+  ⟨fun d => (Compress.Proofs.BzWApi.closed_refuses s hd he d).1, (Compress.Proofs.BzWApi.closed_refuses s hd he []).2,
+   Compress.Proofs.BzWApi.closed_forever s hd he⟩
+
+theorem C18_meta_close_closes (s : MW) (h : s.done = true → s.err = some .closed) (hc : (s.close).2 = none) :
+    (s.close).1.done = true ∧ (s.close).1.err = some .closed :=
+  (Compress.Proofs.MetaWApi.close_latches s h).1 hc
+
+theorem C18_meta_closed (s : MW) (hd : s.done = true) (he : s.err = some .closed) :
+    (∀ d, s.step (.write d) = (s, .write 0 (some .closed))) ∧ s.step .close = (s, .close none) ∧
+    (∀ ops : List MOp, (∀ op ∈ ops, op.noReset) → (MW.run s ops).1 = s) :=
+  ⟨fun d => (Compress.Proofs.MetaWApi.closed_refuses s hd he d).1, (Compress.Proofs.MetaWApi.closed_refuses s hd he []).2,
+   Compress.Proofs.MetaWApi.closed_forever s hd he⟩
+
+end bzmeta
 
 /-- the source has the guard shape the models assume (regenerated facts). -/
 theorem C18_guards_in_source :
